@@ -11,7 +11,7 @@
 From Coq Require Import String.
 From Coq Require Import List Arith ZArith Permutation Lia.
 Import ListNotations.
-From YP Require Import Base.Str Term.Term Engine.GetValue.
+From YP Require Import Base.Str Term.Term Engine.GetValue Engine.ValueHeap.
 
 (* "get_value reflects all current bindings at every depth": whenever it returns, the result is the
    full resolution of t, mentions no bound variable, equals den on the stores unification builds,
@@ -83,6 +83,44 @@ Theorem C15_ground_to_python_stable : forall r, ground r ->
   forall n s', to_python n s' r <> POof -> to_python n s' r = py_of r.
 Proof. exact ground_to_python_stable. Qed.
 Print Assumptions C15_ground_to_python_stable.
+
+(* ---- object level (Engine/ValueHeap.v): the engine's objects on a heap, position = identity; gvh = get_value on objects.
+   "Answers stay valid" also means that nobody else owns the pieces of a value that was handed out. *)
+
+(* get_value writes no existing object, and every Functor object (hence every argument list) inside the value it
+   returns is new: it is shared with nothing that existed before the call *)
+Theorem C15_get_value_allocates_its_result : forall n h r r' h', wfh h -> r < length h -> gvh n h r = Some (r', h') ->
+  (exists ext, h' = h ++ ext) /\ wfh h' /\ r' < length h' /\ forall p, fnode h' r' p -> length h <= p.
+Proof. exact get_value_allocates_its_result. Qed.
+Print Assumptions C15_get_value_allocates_its_result.
+
+(* the structure of a value (Variables by identity) is the same in every later heap reached by allocating objects,
+   binding and unbinding Variables and further get_value calls - by any step that writes no Functor / constant object *)
+Theorem C15_value_structure_stable : forall n h h2 r v, evolve h h2 -> shape n h r = Some v -> shape n h2 r = Some v.
+Proof. exact shape_stable. Qed.
+Print Assumptions C15_value_structure_stable.
+
+Theorem C15_engine_steps_evolve :
+  (forall h, evolve h h) /\ (forall h1 h2 h3, evolve h1 h2 -> evolve h2 h3 -> evolve h1 h3) /\
+  (forall h ext, evolve h (h ++ ext)) /\
+  (forall n h r r' h', gvh n h r = Some (r', h') -> evolve h h') /\
+  (forall h p b b', nth_error h p = Some (OVar b) -> evolve h (set_nth h p (OVar b'))).
+Proof. exact engine_steps_evolve. Qed.
+Print Assumptions C15_engine_steps_evolve.
+
+(* extending the argument list of an object in place (what `goal_args += args` does when goal_args is the list of a
+   live object) is not such a step: the value changes *)
+Example C15_extend_in_place_breaks :
+  let h := [OConst (TAtom (d "a"%string)); OFun (d "p"%string) [0]; OVar None] in
+  shape 3 h 1 = Some (VFun (d "p"%string) [VConst (TAtom (d "a"%string))]) /\
+  shape 3 (extend_in_place h 1 [2]) 1 = Some (VFun (d "p"%string) [VConst (TAtom (d "a"%string)); VRef 2]) /\
+  ~ evolve h (extend_in_place h 1 [2]).
+Proof. exact extend_in_place_breaks. Qed.
+
+Example C15_object_level_nonvacuous :
+  let h := [OConst (TAtom (d "a"%string)); OFun (d "p"%string) [0]; OVar (Some 1)] in
+  gvh 5 h 2 = Some (3, h ++ [OFun (d "p"%string) [0]]) /\ wfh h.
+Proof. exact gvh_example. Qed.
 
 (* non-vacuity: outer structure bound first, inner variables later, the bindings listed in an order
    that is not the order in which they were made; the pinned behaviour is the named counter-example *)
